@@ -61,7 +61,8 @@ def run(chk):
     streams = rng.choice([['params'], ['params', 'dropout'], ['params', 'dropout', 'noise'], ['dropout'], []])
     cases.append({'prog': prog, 'x': [rng.randint(-3, 3) for _ in range(n)], 'streams': streams, 'mutable': LP.gen_filter(rng),
                   'repeat': rng.choice([1, 2, 3]), 'frozen': rng.random() < 0.3,
-                  'drop_col': rng.choice([None, None, None, 'params', 'batch_stats', 'cache', 'perturbations'])})
+                  'drop_col': rng.choice([None, None, None, 'params', 'batch_stats', 'cache', 'perturbations']),
+                  'empty_col': rng.choice([None, None, 'batch_stats', 'cache', 'counter', 'count', 'stats'])})
   W = 14
   results = common.run_impl_parallel('impl_c01.py', [{'cases': cases[i::W]} for i in range(W)], workers=W, timeout=3000)
   obs = [None] * len(cases)
@@ -86,6 +87,10 @@ def run(chk):
       stats['init_err'] += 1
       coq.append((c, o, row_init))
       continue
+    for what, res in (('init', init), ('apply', r['apply'])):
+      if 'err' not in res and res.get('dtypes') not in (None, [], ['int64']):
+        chk.violation('oracle', 'a program that computes in int64 throughout returned %s from %s: an observation feature (perturb / sow) or the variable handling changed the dtype of the '
+                      'primary output or of a variable' % (res.get('dtypes'), what), {'case': c})
     if not r['init_vars_only_equal']:
       chk.violation('oracle', 'Module.init and init_with_output return different variables', {'case': c})
     ap = r['apply']
